@@ -9,13 +9,15 @@ from .driver import Driver, DriverListener, accesses, log, fkey, FIN, OUT, KEY, 
 class GateListener:
     """Remembers what the shared verification step returned on this path, and names file-derived scalars."""
 
-    def __init__(self, D, verify_id):
-        self.D, self.verify_id = D, verify_id
+    def __init__(self, D, verify_id, cmp_id=None):
+        self.D, self.verify_id, self.cmp_id = D, verify_id, cmp_id
 
     def on_ret(self, I, st, node, q, callee, this, args, val, fr):
         if callee.get('m') == self.verify_id:
             st.comps['verify_ret'] = val
             log(st, 'VERIFYRET', val)
+        elif self.cmp_id is not None and callee.get('m') == self.cmp_id:
+            log(st, 'TAGCMP', val, show(args[3]) if len(args) > 3 else '?', nloc(node))
 
     def on_fread(self, I, st, node, root, pos, size, dst, got):
         # a scalar read from the file is one fixed unknown number named by stream and offset (provenance)
@@ -30,6 +32,20 @@ class GateListener:
         full = compare('==', got, size, st.sym) if is_int(got) else None
         st.mem[l] = sym(nm)
         st.comps[('short', nm)] = full is not True
+
+
+class report_null:
+    def ob(self, *a, **k):
+        return None
+
+    def count(self, *a, **k):
+        pass
+
+    def saw(self, *a, **k):
+        pass
+
+    def broke(self, *a, **k):
+        pass
 
 
 def find_verify(D):
@@ -74,7 +90,9 @@ class DriverRules:
         self.prog, self.rec, self.tier = prog, rec, tier
         self.D = Driver(prog, rec)
         self.verify = find_verify(self.D)
-        self.D.extra_listeners = [GateListener(self.D, self.verify['id'])]
+        from .hmac_rules import HmacRules
+        self.tagcmp = HmacRules(prog, report_null()).cmp
+        self.D.extra_listeners = [GateListener(self.D, self.verify['id'], self.tagcmp['id'])]
         self.Ts = list(range(1, self.D.tmax + 1)) if tier == 'thorough' else [1, 2, 4, self.D.tmax]
         rec.extra['thread_counts'] = self.Ts
         rec.extra['exhaustive_over_T'] = tier == 'thorough'
@@ -333,6 +351,13 @@ class DriverRules:
                         self.authenticated(s, ev, T, f, where)
                     if vr is not None and compare('==', vr, C(0), s.sym) is True:
                         self.hash_range(s, ev, T, f, where, lens)
+                        full = s.comps.get('log', ())
+                        ivr = next((i for i, e in enumerate(full) if e[0] == 'VERIFYRET'), len(full))
+                        cmps = [e for e in full[:ivr] if e[0] == 'TAGCMP']
+                        okc = len(cmps) == 1 and cmps[0][1] == C(1)
+                        rec.ob('R05.e', 'R05.e@%s::accept-only-through-complete-compare' % fkey(self.verify), okc, where,
+                               'T=%d %s: verification accepts %s' % (T, op, 'after the tag compare (S-CMP) returned true' if okc else
+                                                                    'WITHOUT a true result of the tag compare function %s (%d calls)' % (self.tagcmp['q'], len(cmps))))
         rec.count('S-GATE gated effects', ngate, len(self.Ts))
         # R12.c: both operations do the same things before and inside verification
         for T in self.Ts[:2]:
